@@ -18,6 +18,7 @@ pub mod c12;
 pub mod c13;
 pub mod c14;
 pub mod c15;
+pub mod c15b;
 pub mod c16;
 pub mod c17;
 pub mod c18;
